@@ -898,6 +898,9 @@ def _expand_when_stmt_element(
             group_match_elements[case_idx].append([])
             group_assignment_elements[case_idx].append([])
             for group_element in and_group["elements"]:
+                # The normalization shares the same element between several and-groups,
+                # every group needs its own copy since the element is modified below
+                group_element = copy.deepcopy(group_element)
                 match_element = copy.deepcopy(group_element)
                 ref_uid = None
                 temp_ref_uid: str
